@@ -180,8 +180,21 @@ def run(cx):
     formB = not bi and len(bcop) == 1 and bcop[0][1] == chunk and len(cfs) == 1 and bcop[0][0] in dom.get(cfs[0], ()) and \
         any(bcop[0][0] in c_ and cfs[0] in c_ for c_ in h.sccs()) and owner(cfs[0], 1) == 'b_i'
     formC = not bi and a1 == 'unwrap(try_into(index(%s, %s)))' % (PAD, rng)
-    cx.add('I-SM3', 'sm3_hash/blocks', formA or formB or formC, 'block i is bytes 64i..64i+64 of the padded message, in order (%s)' % ('copied byte by byte' if formA else 'chunks_exact(64) copied into the block buffer' if formB else 'borrowed in place' if formC else 'not recognised'), h.loc())
-    cx.add('I-SM3', 'sm3_hash/chain', len(cfs) == 1 and (formA or formB or formC) and a0 in ('IV', 'var:v_i=IV', 'var:v_i@in'), 'cf is applied to the chaining value (initialised from IV) and each block: cf(%s, ..)' % a0, h.loc())
+    #  D  as B, the block being padded[off..off+64] with `off` advanced by 64 once per iteration from 0 until off == len
+    formD = False
+    import re as _re
+    if not bi and len(bcop) == 1 and len(cfs) == 1:
+        m_ = _re.match(r'^index\(%s, Range::Range\{var:(\w+)@in, AddWithOverflow\(var:(\w+)@in, 64\)\.0\}\)$' % _re.escape(PAD), bcop[0][1])
+        if m_ and m_.group(1) == m_.group(2):
+            l_ = next((i_ for i_, x_ in enumerate(h.locals) if x_.get('name') == m_.group(1)), None)
+            st_ = P.stride(l_, bcop[0][0]) if l_ is not None else None
+            from ..prov import const_int as _ci
+            formD = st_ is not None and _ci(st_[0]) == 0 and st_[1] == 64 and bcop[0][0] in dom.get(cfs[0], ()) and \
+                any(bcop[0][0] in c_ and cfs[0] in c_ for c_ in h.sccs()) and owner(cfs[0], 1) == 'b_i'
+            if formD:
+                counted = ('eq', sorted(['var:%s@in' % m_.group(1), 'len(%s)' % PAD])) in sw
+    cx.add('I-SM3', 'sm3_hash/blocks', formA or formB or formC or formD, 'block i is bytes 64i..64i+64 of the padded message, in order (%s)' % ('copied byte by byte' if formA else 'chunks_exact(64) copied into the block buffer' if formB else 'borrowed in place' if formC else 'padded[off..off+64] copied, off advanced by 64 per block from 0' if formD else 'not recognised'), h.loc())
+    cx.add('I-SM3', 'sm3_hash/chain', len(cfs) == 1 and (formA or formB or formC or formD) and a0 in ('IV', 'var:v_i=IV', 'var:v_i@in'), 'cf is applied to the chaining value (initialised from IV) and each block: cf(%s, ..)' % a0, h.loc())
     cx.add('I-SM3', 'sm3_hash/termination', counted if not formB else not [x for x in sw if x[0] != 'discr'], 'iteration stops exactly when 64*count == padded length (or: one iteration per 64-byte chunk, no other exit)', h.loc())
     # ---- padding
     pd = cx.fn('gm_sm3::pad', 'L-LEN64')
